@@ -112,14 +112,21 @@ def skeleton(relfile, fn):
     return " ".join(out) + "\n"
 
 
-def check(funcs, bless=False):
+def skel_name(relfile, fn):
+    """static functions of the same name exist in several files (pool_pop_wait ...): qualify those"""
+    if fn.startswith(("pool_", "sched_")) or fn in ("convert_timespec_to_sec",):
+        return relfile.replace("/", "_").rsplit(".", 1)[0] + "__" + fn
+    return fn
+
+
+def check(funcs, bless=False, key=None):
     """funcs: list of (relfile, fn).  Returns (n_checked, [ {fn,file,reason} ... ])."""
     os.makedirs(EXPECTED, exist_ok=True)
     broken = []
     n = 0
     for relfile, fn in funcs:
         cur = skeleton(relfile, fn)
-        path = os.path.join(EXPECTED, fn + ".skel")
+        path = os.path.join(EXPECTED, skel_name(relfile, fn) + ".skel")
         n += 1
         if cur is None:
             broken.append({"fn": fn, "file": relfile, "reason": "function not found in current source"})
